@@ -141,8 +141,15 @@ func tableLookup(w *World, info *types.Info, e ast.Expr) (*pkgTableInfo, ast.Exp
 		return nil, nil
 	}
 	t := pkgTable(w, info, ix.X)
-	if t == nil || !t.isMap {
+	if t == nil {
 		return nil, nil
+	}
+	if !t.isMap { // an array or slice table is a lookup table when every element is keyed (`[...]T{k1: v1, k2: v2}`)
+		for _, en := range t.entries {
+			if en.key == nil {
+				return nil, nil
+			}
+		}
 	}
 	return t, ix.Index
 }
